@@ -11,6 +11,7 @@ import Driver.OpsRecip
 import Driver.Value
 import Driver.OpsClean
 import Driver.OpsFlatten
+import Driver.OpsCopy
 open Lean Driver
 
 def dispatch (op : String) (j : Json) : R Json :=
@@ -25,6 +26,7 @@ def dispatch (op : String) (j : Json) : R Json :=
   | "echo" => opEcho j
   | "clean" => opClean j
   | "flatten" => opFlatten j
+  | "copy" => opCopy j
   | _ => .error s!"unknown op {op}"
 
 partial def loop (h : IO.FS.Stream) (out : IO.FS.Stream) : IO Unit := do
